@@ -939,3 +939,78 @@ func (t *Transcript) Note(b string)     { fmt.Fprintf(&t.sb, "N\t%s\n", b) }
 func (t *Transcript) NonTrivial()       { t.sb.WriteString("T\n") }
 func (t *Transcript) Comment(s string)  { fmt.Fprintf(&t.sb, "#\t%s\n", strings.ReplaceAll(s, "\n", " ")) }
 func (t *Transcript) String() string    { return t.sb.String() }
+
+// ---- PBF-file sources (C36) ----------------------------------------------------------------------
+
+// WritePBF writes the input with the repo's own osm.Writer, flushing a block every `every` elements so
+// that a parallel reader has several blobs whose arrival order can vary. It returns the file name.
+func WritePBF(in *Input, every int) (string, error) {
+	fh, err := os.CreateTemp("", "c36-*.osm.pbf")
+	if err != nil {
+		return "", err
+	}
+	defer fh.Close()
+	w, err := osm.NewWriter(fh)
+	if err != nil {
+		return fh.Name(), err
+	}
+	n := 0
+	tick := func() error {
+		n++
+		if every > 0 && n%every == 0 {
+			return w.Flush()
+		}
+		return nil
+	}
+	for i := range in.Nodes {
+		if err := w.WriteNode(&in.Nodes[i]); err != nil {
+			return fh.Name(), err
+		}
+		if err := tick(); err != nil {
+			return fh.Name(), err
+		}
+	}
+	for i := range in.Ways {
+		if err := w.WriteWay(&in.Ways[i]); err != nil {
+			return fh.Name(), err
+		}
+		if err := tick(); err != nil {
+			return fh.Name(), err
+		}
+	}
+	for i := range in.Relations {
+		if err := w.WriteRelation(&in.Relations[i]); err != nil {
+			return fh.Name(), err
+		}
+		if err := tick(); err != nil {
+			return fh.Name(), err
+		}
+	}
+	return fh.Name(), w.Flush()
+}
+
+// ReadBackPBF reads the file with the repo's reader and returns it as an Input in id order (the source
+// description given to the model is what the file holds, e.g. locations at the file's granularity).
+func ReadBackPBF(filename string) (*Input, error) {
+	nodes, ways, relations, err := osm.ReadWholePBF(filename)
+	if err != nil {
+		return nil, err
+	}
+	sort.Slice(nodes, func(i, j int) bool { return nodes[i].ID < nodes[j].ID })
+	sort.Slice(ways, func(i, j int) bool { return ways[i].ID < ways[j].ID })
+	sort.Slice(relations, func(i, j int) bool { return relations[i].ID < relations[j].ID })
+	return &Input{Nodes: nodes, Ways: ways, Relations: relations}, nil
+}
+
+func BuildBasicFromPBF(filename string, cores int) (b6.World, error) {
+	return ingest.NewWorldFromPBFFile(filename, &ingest.BuildOptions{Cores: cores})
+}
+
+func BuildCompactFromPBF(filename string, cores int) (b6.World, error) {
+	src := ingest.PBFFilesOSMSource{Glob: filename, FailWhenNoFiles: true}
+	fs, err := ingest.NewFeatureSourceFromPBF(&src, &ingest.BuildOptions{Cores: cores}, context.Background())
+	if err != nil {
+		return nil, err
+	}
+	return BuildCompactFromSource(fs, cores)
+}
